@@ -176,6 +176,21 @@ Proof.
   apply IH. apply canonL_step. exact H.
 Qed.
 
+(* the ring after ANY sequence of actions is exactly the image of the layers: a value sits in the slot
+   h iff a layer of its node has a live virtual node hashing to h; and keys holds one key per entry *)
+Lemma arun_ring_image_l : forall acts,
+  let s := arun vh R acts in
+  (forall h x, In x (bucket h (ring s)) <-> LiveL (amap_acts acts) x h) /\
+  (forall h, cnt (keys s) h = length (bucket h (ring s))) /\
+  (forall h, In h (keys s) <-> live_hashL (amap_acts acts) h).
+Proof.
+  intros acts s. destruct (canonL_run acts) as [I L]. fold s in I, L.
+  split; [exact L|]. split; [exact (inv_cnt _ _ _ I)|].
+  intros h. split.
+  - intros Hk. destruct (key_bucket vh R s h I Hk) as [x Hx]. exists x. apply L. exact Hx.
+  - intros [x Hx]. apply L in Hx. eapply bucket_key; eauto.
+Qed.
+
 (* Get after ANY sequence of actions, for every hash: never a panic; none iff no layer has a live
    virtual node; otherwise a value of a layer owning the cyclic successor slot of the key's hash *)
 Lemma arun_get_owner_l : forall acts hp ihp,
